@@ -33,6 +33,9 @@ package notifier
 //                               rs <now> <c|g> <list>  the same, but the storage request (cluster list / first consumer
 //                                        list) is not taken off App.StorageChannel within the 1 s timeout
 //                               ue <now> clock := now; complete the pending Unlock() with an ERROR
+//                               rp <now> <list>  r through the real storage path even when rand.Int63n(minInterval*1000)
+//                                        will panic in a goroutine of the Coordinator: the child dies = outcome PANIC
+//                               af <mode> answer now every request held since `a hold` (a LATE reply); AF:<n>:<notified>
 //                               a <mode> from now on every evaluator request is ANSWERED through the real reply path
 //                                        (nc.evaluatorResponse -> responseLoop -> checkAndSendResponseToModules ->
 //                                        notifyModule): none | nil | nf | ok | warn | err | stop | stall | rewind
@@ -645,6 +648,8 @@ func vCfg(f []string, sink func(string)) (res string) {
 	var hold atomic.Int32
 	var ansMode atomic.Int64 // -2: requests are not answered; -1: a nil reply; >= 0: a reply with that status
 	var answered atomic.Int64
+	var heldMu sync.Mutex
+	var held []*protocol.EvaluatorRequest // mode hold: requests the evaluator has taken but not answered yet
 	ansMode.Store(-2)
 	stop := make(chan struct{})
 	go func() {
@@ -669,6 +674,10 @@ func vCfg(f []string, sink func(string)) (res string) {
 				// the evaluator's side: answer the request through the real reply path (responseLoop ->
 				// checkAndSendResponseToModules -> notifyModule), status as scripted by the latest `a` event
 				switch st := ansMode.Load(); {
+				case st == -3:
+					heldMu.Lock()
+					held = append(held, r)
+					heldMu.Unlock()
 				case st == -1:
 					r.Reply <- nil
 				case st >= 0:
@@ -741,8 +750,8 @@ func vCfg(f []string, sink func(string)) (res string) {
 			mu.Lock()
 			n := len(got)
 			mu.Unlock()
-			if n == last {
-				break
+			if n == last || n >= 300 {
+				break // quiet -- or requests that will not stop (every entry due at every iteration)
 			}
 			last = n
 		}
@@ -776,8 +785,9 @@ func vCfg(f []string, sink func(string)) (res string) {
 	// refresh runs the group refresh with the given lists: through the storage requests the ticker loop issues when the
 	// implementation's minInterval is positive (rand.Int63n cannot panic in a goroutine the probe does not own), by
 	// calling processConsumerList directly under recover otherwise.  Returns false on a panic.
+	forceStorage := false // event rp (child process only): the real storage path whatever minInterval is
 	refresh := func(lists map[string][]string) bool {
-		if mi > 0 {
+		if mi*1000 > 0 || forceStorage {
 			stMu.Lock()
 			for c := range stLists {
 				delete(stLists, c)
@@ -853,7 +863,7 @@ func vCfg(f []string, sink func(string)) (res string) {
 		for _, g := range groups {
 			lists[vCluster(g.g)] = append(lists[vCluster(g.g)], "g"+strconv.Itoa(g.g))
 		}
-		if mi <= 0 {
+		if mi*1000 <= 0 {
 			nc.clusterLock.Lock()
 			for c, l := range lists {
 				nc.clusters[c] = &clusterGroups{Lock: &sync.RWMutex{}, Groups: make(map[string]*consumerGroup)}
@@ -956,13 +966,42 @@ func vCfg(f []string, sink func(string)) (res string) {
 			put(o)
 		case "a":
 			// from now on the evaluator answers: none | nil | nf | ok | warn | err | stop | stall | rewind
-			modes := map[string]int64{"none": -2, "nil": -1, "nf": 0, "ok": 1, "warn": 2, "err": 3, "stop": 4, "stall": 5, "rewind": 6}
+			modes := map[string]int64{"hold": -3, "none": -2, "nil": -1, "nf": 0, "ok": 1, "warn": 2, "err": 3, "stop": 4, "stall": 5, "rewind": 6}
 			v, ok := modes[next()]
 			if !ok {
 				return "BADEVENT"
 			}
 			ansMode.Store(v)
 			put("A")
+		case "af":
+			// the evaluator answers, late, every request it has been holding (mode hold): a reply that reaches
+			// responseLoop after whatever happened in between (an expiry).  Output AF:<replies>:<1 if a module was notified>
+			modes := map[string]int64{"nf": 0, "ok": 1, "warn": 2, "err": 3, "stop": 4, "stall": 5, "rewind": 6}
+			v, ok := modes[next()]
+			if !ok {
+				return "BADEVENT"
+			}
+			for _, mod := range nc.modules {
+				if nm, ok := mod.(*NullNotifier); ok {
+					nm.CalledNotify = false
+				}
+			}
+			heldMu.Lock()
+			hs := held
+			held = nil
+			heldMu.Unlock()
+			for _, r := range hs {
+				r.Reply <- &protocol.ConsumerGroupStatus{Cluster: r.Cluster, Group: r.Group, Status: protocol.StatusConstant(v),
+					Complete: 1.0, Partitions: make([]*protocol.PartitionStatus, 0), TotalPartitions: 1, TotalLag: 10}
+			}
+			time.Sleep(25 * time.Millisecond * m)
+			notified := 0
+			for _, mod := range nc.modules {
+				if nm, ok := mod.(*NullNotifier); ok && nm.CalledNotify {
+					notified = 1
+				}
+			}
+			put(fmt.Sprintf("AF:%d:%d", len(hs), notified))
 		case "e":
 			if lock.unlockCalls.Load() > sentUnlock {
 				lock.unlockRes <- nil
@@ -993,8 +1032,9 @@ func vCfg(f []string, sink func(string)) (res string) {
 			}
 			time.Sleep(8 * time.Millisecond * m)
 			put(fmtIDs("T:", take()))
-		case "r", "rs":
+		case "r", "rs", "rp":
 			stalled := ev == "rs"
+			forceStorage = ev == "rp" && sink != nil
 			now := nextI()
 			mode := ""
 			if stalled {
@@ -1015,7 +1055,7 @@ func vCfg(f []string, sink func(string)) (res string) {
 				// a refresh whose storage request is not taken off App.StorageChannel within the 1 s of
 				// helpers.TimeoutSendStorageRequest: the cluster-list request (mode c), or the first consumer-list
 				// request after the cluster list was answered (mode g; the other clusters are then answered)
-				if mi <= 0 {
+				if mi*1000 <= 0 {
 					put("RS?")
 					continue
 				}
@@ -1070,7 +1110,7 @@ func vCfg(f []string, sink func(string)) (res string) {
 				for name, gi := range cg.Groups {
 					if !before[name] {
 						d := now - gi.LastEval.UnixNano()
-						if d < 0 || d >= mi*1000*1000000 || d%1000000 != 0 {
+						if mi <= 9223372036 && (d < 0 || d >= mi*1000*1000000 || d%1000000 != 0) {
 							rangeBad = true
 						}
 						gi.LastEval = time.Unix(0, now-draws[name]*1000000)
@@ -1236,7 +1276,7 @@ func TestVerifProbeEvalloop(t *testing.T) {
 
 func vIsIsolated(f []string) bool {
 	for _, x := range f {
-		if x == "ue" || x == "rs" || x == "a" {
+		if x == "ue" || x == "rs" || x == "a" || x == "rp" {
 			return true
 		}
 	}
@@ -1270,7 +1310,7 @@ func vIsolated(idx int, line, outPath string) string {
 	f := strings.Fields(line)
 	evs := vCfgEventKinds(f)
 	k := len(toks) - 2
-	if k >= 0 && k < len(evs) && evs[k] == "ue" && strings.Contains(string(stderr), "panic") {
+	if k >= 0 && k < len(evs) && (evs[k] == "ue" || evs[k] == "rp") && strings.Contains(string(stderr), "panic") {
 		return strings.Join(append(toks, "PANIC"), " ")
 	}
 	msg := "?"
@@ -1298,11 +1338,11 @@ func vCfgEventKinds(f []string) []string {
 		ev := f[i]
 		kinds = append(kinds, ev)
 		switch ev {
-		case "k", "t", "ue", "a":
+		case "k", "t", "ue", "a", "af":
 			i += 2
 		case "e", "x":
 			i++
-		case "r":
+		case "r", "rp":
 			n, _ := strconv.Atoi(f[i+2])
 			i += 3 + 2*n
 		case "rs":
